@@ -92,12 +92,23 @@ def unit_dir(rng):
 
 
 def gen_step(rng, neutral_ok=False, speeds=None):
-    """charge, time, step length, pre speed/pos, post speed/pos"""
+    """charge, time, step (path) length, pre speed/pos, post speed/pos.
+    The path length `sl` (GeneratorDistributionData::step_length) is what the parent travelled;
+    the chord |post − pre| is shorter for curved / MSC-shortened steps: about half of the steps
+    have sl = chord·f with f in (1, 1.5], some barely longer (1 + 1e-3 … 1.02), the rest f = 1."""
     charge = rng.choice([-1.0, 1.0, 2.0, -2.0, 1.0 / 3.0, 26.0])
     if neutral_ok and rng.chance(1, 6):
         charge = 0.0
     time = rng.choice([0.0, rng.unit() * 1e-8, rng.unit() * 1e-3, 1.0])
-    sl = 10.0 ** (rng.unit() * 7 - 5)
+    chord = 10.0 ** (rng.unit() * 7 - 5)
+    k = rng.below(10)
+    if k < 4:
+        f = 1.0
+    elif k < 6:
+        f = 1.0 + 10.0 ** (rng.unit() * 1.3 - 3)        # 1.001 … 1.02
+    else:
+        f = 1.0 + rng.unit() * 0.5                      # up to 1.5
+    sl = chord * f
     if speeds is None:
         v0 = rng.unit() * 0.999 + 0.0005
         v1 = v0 * (1 - rng.unit() * 0.2) if rng.chance(2, 3) else rng.unit() * 0.999 + 0.0005
@@ -107,8 +118,9 @@ def gen_step(rng, neutral_ok=False, speeds=None):
         v0, v1 = speeds
     pre = [(rng.unit() * 2 - 1) * 100 for _ in range(3)] if rng.chance(3, 4) else [0.0, 0.0, 0.0]
     d = unit_dir(rng)
-    post = [pre[i] + sl * d[i] for i in range(3)]
-    return {"charge": charge, "time": time, "sl": sl, "v0": v0, "pre": pre, "v1": v1, "post": post}
+    post = [pre[i] + chord * d[i] for i in range(3)]
+    return {"charge": charge, "time": time, "sl": sl, "chord": chord, "path_over_chord": f,
+            "v0": v0, "pre": pre, "v1": v1, "post": post}
 
 
 def dist_words(st):
@@ -317,7 +329,7 @@ def op_ceroff(rng, below=False):
         v0, v1 = speeds_for(rng, m)
     st = gen_offload_step(rng, v0, v1)
     if rng.chance(1, 3):
-        st["sl"] = 10.0 ** (rng.unit() * 2 - 1.5)
+        st["sl"] = max(st["chord"], 10.0 ** (rng.unit() * 2 - 1.5))
     sc = script(rng, rng.choice([0, 2, 60, 200]))
     line = "ceroff %s | %s | %s | %s" % (m["mode"], offload_words(st), cer_mat_words(m), hxs(sc))
     return line, ("ceroff", st, m, sc, below)
@@ -454,18 +466,33 @@ def check_common(st, p, fails, tag, line, out, dot_tol):
         fails.append((tag + "-pol-not-unit", line, out, dict(info, norm=norm(pol))))
     if not (abs(dot(d, pol)) <= dot_tol):
         fails.append((tag + "-dir-pol-not-perpendicular", line, out, dict(info, dot=dot(d, pol))))
+    # time: not earlier than the pre-step time; NaN / infinite times are violations too
     if not (t >= st["time"]):
         fails.append((tag + "-time-before-pre-step", line, out, dict(info, pre_time=st["time"])))
-    # position on the segment pre→post
+    elif not math.isfinite(t):
+        fails.append((tag + "-time-not-finite", line, out, dict(info, pre_time=st["time"])))
+    # position on the segment [pre, post]: finite; fractional coordinate in [0,1]; perpendicular
+    # offset ~0; every component inside the bounding box of the two end points (few ulp)
     pre, post = st["pre"], st["post"]
     dl = [post[i] - pre[i] for i in range(3)]
     L2 = dot(dl, dl)
     scale = max(1.0, max(abs(v) for v in pre + post))
-    if L2 > 0:
+    pinfo = dict(info, pre=pre, post=post, step_length=st["sl"], chord=math.sqrt(L2))
+    if not all(math.isfinite(v) for v in pos):
+        fails.append((tag + "-position-off-segment", line, out, dict(pinfo, why="not finite")))
+    elif L2 > 0:
         u = dot([pos[i] - pre[i] for i in range(3)], dl) / L2
         off = max(abs(pos[i] - (pre[i] + u * dl[i])) for i in range(3))
-        if not (-1e-9 <= u <= 1 + 1e-9 and off <= 1e-12 * scale):
-            fails.append((tag + "-position-off-segment", line, out, dict(info, u=u, off=off)))
+        box = 4 * 2.220446049250313e-16 * scale
+        inside = all(min(pre[i], post[i]) - box <= pos[i] <= max(pre[i], post[i]) + box
+                     for i in range(3))
+        if not (-1e-9 <= u <= 1 + 1e-9 and off <= 1e-12 * scale and inside):
+            fails.append((tag + "-position-off-segment", line, out,
+                          dict(pinfo, fractional_coordinate=u, perpendicular_offset=off,
+                               inside_bounding_box=inside,
+                               expected="pre + u (post - pre) with 0 <= u <= 1")))
+    elif not all(pos[i] == pre[i] for i in range(3)):
+        fails.append((tag + "-position-off-segment", line, out, dict(pinfo, why="pre == post")))
     return info
 
 
